@@ -552,7 +552,7 @@ impl Property for C15 {
     const ID: &'static str = "C15";
     const LEVEL: &'static str = "fault_enumeration";
     fn rule() -> String {
-        "enumerated: worker in {poller, writer} x named fault point (poller: startup, loop top, after the clock read, before/after send, before/after recv; writer: startup, after ShmWriter::new, loop top, after a message, inside process_clock_update / process_missing_clock_update, before/after the segment write) x n-th time the point is reached (0,1 quick; 0,1,2 thorough) x kind (panic; early return where that ends the thread) x chronyd (absent; silent = 3 s of timeouts per query; answering), plus a writer that lingers 0.5-2.5 s at the fault point before dying during a chronyd outage (the poller is then in the middle of its iteration, not waiting on its mailbox), plus hook-free natural faults (/run/clockbound is a regular file; PHC error-bound file unparsable from the start / turning unparsable after 1.5 s). Generated in addition: random combinations with random reply delays. Each case: thread_manager::run() in a child process inside a private mount namespace. Oracle: run() returns within 12 s of the failure (legitimate worst case ~4 s: 1 s poll sleep + 3 x 1 s chrony timeouts) and no worker thread is left alive; a child still running 13 s after the failure (or 47 s after start when the failure never happens) is killed and reported as lingering. Non-trivial: iteration >= 1, an answering chronyd, or a natural fault.".into()
+        "enumerated: worker in {poller, writer} x named fault point (poller: startup, loop top, after the clock read, before/after send, before/after recv; writer: startup, after ShmWriter::new, loop top, after a message, inside process_clock_update / process_missing_clock_update, before/after the segment write) x n-th time the point is reached (0,1 quick; 0,1,2 thorough) x kind (panic; early return where that ends the thread) x chronyd (absent; silent = 3 s of timeouts per query; answering), plus a writer that lingers 0.5-2.5 s at the fault point before dying during a chronyd outage (the poller is then in the middle of its iteration, not waiting on its mailbox), plus an answering chronyd whose replies take 150-950 ms (quick: 700 ms) x five fault points, plus hook-free natural faults (/run/clockbound is a regular file; PHC error-bound file unparsable from the start / turning unparsable after 1.5 s). Generated in addition: random combinations with random reply delays. Each case: thread_manager::run() in a child process inside a private mount namespace. Oracle: run() returns within 12 s of the failure (legitimate worst case ~4 s: 1 s poll sleep + 3 x 1 s chrony timeouts) and no worker thread is left alive; a child still running 13 s after the failure (or 47 s after start when the failure never happens) is killed and reported as lingering. Non-trivial: iteration >= 1, an answering chronyd, or a natural fault.".into()
     }
     fn assumptions() -> Vec<String> {
         vec!["promptness is decided with a 12 s deadline (3x the legitimate worst case); interleavings of the death notifications are those the OS scheduler produces plus the injected reply delays".into()]
@@ -590,6 +590,19 @@ impl Property for C15 {
                         fault_delay_ms: delay,
                     });
                 }
+            }
+        }
+        // a chronyd that answers, but slowly (below the 1 s client time-out): whatever the poller does
+        // with late replies must not keep it away from its mailbox or from the writer's
+        for delay in if tier == Tier::Quick { vec![700u32] } else { vec![150u32, 400, 700, 950] } {
+            for (p, nth) in [("writer:after_message", 1u32), ("writer:before_write", 0), ("writer:in_clock_update", 1), ("writer:after_new", 0), ("poller:after_send", 1)] {
+                cases.push(FaultCase {
+                    fault: Some((p.to_string(), nth, true)),
+                    chrony: ChronyMode::Answering,
+                    natural: Natural::None,
+                    reply_delay_ms: delay,
+                    fault_delay_ms: 0,
+                });
             }
         }
         for chrony in [ChronyMode::Absent, ChronyMode::Answering, ChronyMode::Silent] {
